@@ -144,7 +144,7 @@ BUILT: dict[str, dict[str, str]] = {
     "C03": dict(
         technique="schedule enumeration + property-based testing (Hypothesis) with a Wing-Gong linearizability oracle: generated and systematic multi-worker storage scenarios on eleven thread / 'process' / mixed layouts under a deterministic line-level scheduler; every schedule's call history is searched for a sequential order that ModelStorage reproduces (results, exception classes, final state)",
         category="exploration",
-        text="Fifteen classic same-object races are run on every layout with all single-preemption schedules (quick tier: sampled on the journal-file and SQLite layouts) and release-x-anywhere two-preemption pairs on the cheap thread layouts, plus generated scenarios with single- and multi-preemption schedules; preemption points include the gaps between the elements of a container being copied; each history must be linearizable against the reference model and end in the backend's real final state. One recorded finding (SQLite check-then-write of the non-state setters) is carved out for exactly that overlap.",
+        text="Sixteen classic same-object races are run on every layout with all single-preemption schedules (quick tier: sampled on the journal-file and SQLite layouts) and release-x-anywhere two-preemption pairs on the cheap thread layouts, plus generated scenarios with single- and multi-preemption schedules; preemption points include the gaps between the elements of a container being copied; each history must be linearizable against the reference model and end in the backend's real final state. One recorded finding (SQLite check-then-write of the non-state setters) is carved out for exactly that overlap.",
         note="Line-granular preemption; simulated processes; gRPC server threads not scheduled; busy timeout 0 ('database is locked' allowed as a no-effect outcome).",
         ref="DESIGN.md 2.3, 3/C03",
     ),
